@@ -27,10 +27,10 @@ m = {
     "hooks": {"guard": "kani", "enable": "no source hooks: contracts and harnesses are injected into a scratch copy of /repo under /var/tmp on every run (cfg(kani) exists only there); Verus reads /repo/src directly",
               "baseline_off_cmd": "./baseline.sh", "source_commits": [], "add_only": True},
     "engines": [{"name": "contracts", "path": "/verif/tools", "serves_properties": [c["property_id"] for c in checks],
-                 "kind_free_text": "contract-based deductive verification: function bodies extracted verbatim from /repo on every run, annotated from /verif/contracts, discharged by Verus (Z3) and Kani (CBMC)"}],
+                 "kind_free_text": "contract-based deductive verification: function bodies extracted verbatim from /repo (and, for C11, from the pinned dependency source) on every run, annotated from /verif/contracts, discharged by Verus (Z3) and Kani (CBMC); bounded native companions (contracts/native) as stand-ins where neither verifier reaches"}],
     "checks": checks,
     "not_applicable": na,
-    "notes": "fix commits in /repo: see known_findings.json (status=fixed). DESIGN.md explains approach, assumptions and per-property verdicts.",
+    "notes": "fix commits in /repo: see known_findings.json (status=fixed; replay tests under fixes/). DESIGN.md sections 8-9 record what was built, the assumptions and the per-property verdicts (table in 9.7). Checks named native_* are bounded stand-ins (executable contract clauses on the real code over a stated finite family), never counted as proved.",
 }
 json.dump(m, open(os.path.join(V, "MANIFEST.json"), "w"), indent=1)
 print("claimed:", [c["property_id"] for c in checks])
